@@ -75,6 +75,22 @@ def _ba(x) -> bitarray:
     return bitarray([int(v) for v in x])
 
 
+def _preimport():
+    """Hypothesis (6.13x and later) mixes constants harvested from the source of every *local* module present in
+    sys.modules into its draws.  The library modules an oracle imports lazily would therefore make the generated cases
+    depend on which forked worker happened to run which shard first.  Import everything the oracles touch in the parent,
+    before any worker is forked, so that every worker sees the same module set."""
+    import importlib
+    import pkgutil
+
+    import okdmr.dmrlib.etsi as etsi
+
+    for m in pkgutil.walk_packages(etsi.__path__, "okdmr.dmrlib.etsi."):
+        importlib.import_module(m.name)
+    importlib.import_module("okdmr.dmrlib.etsi.layer2.burst")
+    importlib.import_module("hypothesis.strategies")
+
+
 # ---------------------------------------------------------------------------------------------- oracle
 
 
@@ -244,6 +260,7 @@ def _tally_code(sub, c, t: Tally, key, src):
 
 
 def drv_32(ctx: Ctx, sub: SubCheck):
+    _preimport()
     items = [(lo, lo + 128) for lo in range(0, 2048, 128)]
 
     def work(it, t: Tally):
@@ -283,6 +300,7 @@ def _directed_128(ctx: Ctx, per_target: int):
 
 def _drv_sampled(code, n_quick, n_thorough, directed=None):
     def drv(ctx: Ctx, sub: SubCheck):
+        _preimport()
         from hypothesis import strategies as st
 
         k = CODES[code][0]
@@ -309,6 +327,7 @@ def _drv_sampled(code, n_quick, n_thorough, directed=None):
 
 
 def drv_linearity(ctx: Ctx, sub: SubCheck):
+    _preimport()
     from hypothesis import strategies as st
 
     def strat_for(code):
